@@ -40,9 +40,11 @@ class Encoder:
         return ORIGIN_NAMES[idx]
 
     def origin_of_call(self, call):
-        o = httpcore.URL(call.url).origin
-        for i, x in enumerate(self.origins):
-            if x == o:
+        from .urls import ind_origin
+
+        k = ind_origin(call.url)
+        for i, x in enumerate(self.run.origin_keys):
+            if x == k:
                 return i
         raise ValueError("unknown origin")
 
@@ -239,6 +241,7 @@ DEVIATIONS = [
     "InitRetryOnClosed",
     "MuxCancelCorrupts",
     "MuxIdleWhileUsersWait",
+    "SurplusCountsStale",
 ]  # same order as AllDevs in MCPoolTrace.tla
 
 
